@@ -21,6 +21,8 @@ func init() {
 	checks["C16/taptree"] = checkC16Tree
 	checks["C16/tapcb"] = checkC16Cb
 	checks["C16/taptweak"] = checkC16Tweak
+	checks["C16/tapbig"] = checkC16Tree
+	checks["C16/tapkeys"] = checkC16Keys
 }
 
 func tapVerifies(cbBytes, prog, script []byte) bool {
@@ -113,6 +115,17 @@ func checkC16Tree(t *Toks) string {
 		}
 		if !bytes.Equal(parsed.RootHash(ls[i].script), root[:]) {
 			return fail("cb.roothash", fmt.Sprintf("leaf=%d/%d", i, n))
+		}
+		// the same tree used with a second internal key
+		if i == 0 || i == n-1 {
+			qo := taproot.ComputeTaprootOutputKey(otherKey, root[:])
+			cbo := pr.ToControlBlock(otherKey)
+			if cbo.OutputKeyYIsOdd != tapIsOdd(qo) {
+				return fail("multikey.parity", fmt.Sprintf("leaf=%d/%d", i, n))
+			}
+			if taproot.VerifyTaprootLeafCommitment(&cbo, otherProg, ls[i].script) != nil {
+				return fail("multikey.verify", fmt.Sprintf("leaf=%d/%d", i, n))
+			}
 		}
 		if !deep[i] {
 			continue
@@ -260,6 +273,55 @@ func checkC16Tweak(t *Toks) string {
 			how = "overwritten-by-tweaked-key"
 		}
 		return fail("tweak.caller_key", fmt.Sprintf("%s/odd=%v", how, tapIsOdd(pub)))
+	}
+	return "OK"
+}
+
+// one assembled tree, several internal keys, in the order of the case: every control block
+// proves its leaf against the output key of (that key, root) with that key's parity bit
+func checkC16Keys(t *Toks) string {
+	ls, ks, ops := tapReadKeys(t)
+	leaves := tapToLeaves(ls)
+	tree := taproot.AssembleTaprootScriptTree(leaves...)
+	root := tree.RootNode.TapHash()
+	for x, o := range ops {
+		k, li := ks[o[0]], o[1]
+		q := taproot.ComputeTaprootOutputKey(k.key, root[:])
+		prog := schnorr.SerializePubKey(q)
+		at := fmt.Sprintf("op=%d/key=%d/leaf=%d/keys=%d", x, o[0], li, len(ks))
+		var cb taproot.ControlBlock
+		if x%3 == 2 && len(ls[li].script) > 0 {
+			cb = psetv2.NewTapLeafScript(tree.LeafMerkleProofs[li], k.key).ControlBlock // copied proof
+		} else {
+			cb = tree.LeafMerkleProofs[li].ToControlBlock(k.key)
+		}
+		if cb.OutputKeyYIsOdd != tapIsOdd(q) {
+			return fail("multikey.parity", at)
+		}
+		if taproot.VerifyTaprootLeafCommitment(&cb, prog, ls[li].script) != nil {
+			return fail("multikey.verify", at)
+		}
+		bs, err := cb.ToBytes()
+		if err != nil {
+			return fail("cb.tobytes", "error")
+		}
+		if !tapVerifies(bs, prog, ls[li].script) {
+			return fail("multikey.roundtrip.verify", at)
+		}
+		fl := append([]byte{}, bs...)
+		fl[0] ^= 1
+		if tapVerifies(fl, prog, ls[li].script) {
+			return fail("multikey.wrong.parity", at)
+		}
+		// the block made for this key does not open another key's output
+		for j := range ks {
+			if j != o[0] && !ks[j].key.IsEqual(k.key) {
+				pj := schnorr.SerializePubKey(taproot.ComputeTaprootOutputKey(ks[j].key, root[:]))
+				if !bytes.Equal(pj, prog) && tapVerifies(bs, pj, ls[li].script) {
+					return fail("multikey.other.outputkey", at)
+				}
+			}
+		}
 	}
 	return "OK"
 }
